@@ -2,6 +2,7 @@ import OcVerif.Util
 import OcVerif.Driver.Time
 import OcVerif.Driver.Queue
 import OcVerif.Driver.QConc
+import OcVerif.Driver.Nio
 /-!
 `ocmodel`: reads history lines `<comp> <id> : <body> => <implementation outputs>` on stdin,
 runs the Lean model on `<body>`, compares with the implementation's outputs and evaluates the
@@ -17,6 +18,7 @@ def dispatch (comp : String) : Option (String → String → Verdict) :=
   | "oq" => some Driver.Queue.driveOq
   | "pq" => some Driver.Queue.drivePq
   | "qconc" => some Driver.QConc.drive
+  | "nio" => some Driver.Nio.drive
   | _ => none
 
 def handle (line : String) : String :=
